@@ -236,6 +236,43 @@ func C11(tier string) int {
 // c11Body is the history/program part of the check (unscheduled real code); the
 // scheduler build adds the completion/restart/delete interleavings (sched_c11.go).
 func c11Body(run *vf.Run, tier string) {
+	// ---- part T: a job releases the temporary storage of its traversal (a step such as distinct() keeps
+	// its state in a scratch key-value store under the server's work directory)
+	{
+		db, _ := sizedGraph(5)
+		wd := filepath.Join(harnessWorkDir(), fmt.Sprintf("c11-tmp-%d", atomic.AddInt64(&c11Dirs, 1)))
+		os.MkdirAll(wd, 0o755)
+		jd := filepath.Join(wd, "jobs")
+		os.MkdirAll(jd, 0o755)
+		srv := newServerWorkDir(db, filepath.Join(wd, "work"))
+		os.MkdirAll(filepath.Join(wd, "work"), 0o755)
+		srv.VerifSetJobStorage(jobstorage.NewFSJobStorage(jd))
+		e := &c11Env{srv: srv, db: db, dir: jd}
+		for _, q := range []struct {
+			name  string
+			stmts []*gripql.GraphStatement
+		}{{"V().distinct()", gripql.V().Distinct().Statements}, {"V().out().distinct(_label).count()", gripql.V().Out().Distinct("_label").Count().Statements}} {
+			_, st, err := e.submit("g", q.stmts)
+			if err != nil || st == nil || st.State != gripql.JobState_COMPLETE {
+				continue
+			}
+			left := []string{"?"}
+			for i := 0; i < 600 && len(left) > 0; i++ { // patient: the clean-up runs after the job's last row
+				left = left[:0]
+				ents, _ := os.ReadDir(filepath.Join(wd, "work"))
+				for _, en := range ents {
+					left = append(left, en.Name())
+				}
+				if len(left) > 0 {
+					time.Sleep(100 * time.Millisecond)
+				}
+			}
+			if len(left) > 0 {
+				run.Report(vf.Violation{Sig: "store|temp-storage-left-behind", Detail: fmt.Sprintf("job %s is COMPLETE, one minute later the server's work directory still holds %v (the scratch store of the traversal is neither closed nor removed)", q.name, left), Replay: map[string]any{"query": q.name}})
+			}
+		}
+		os.RemoveAll(wd)
+	}
 	thorough := tier == "thorough"
 	defer os.RemoveAll(harnessWorkDir())
 	evals := 0
